@@ -830,6 +830,8 @@ class FamilyMixin:
         nh = self.Handle(got[1], "varr", h.tname, h.store, [h.idx[k] for k in range(n) if bits[k]], h.writable, True)
         nh.vtype = h.vtype
         nh.ulen = n if not h.masked else None
+        if h.masked:
+            nh.ulen_alt = self.maybe_legal_lengths(h) | {n}
         self.add(nh)
 
     def stale_rows(self, rowstores):
@@ -937,7 +939,7 @@ class FamilyMixin:
         self.sig_ctx = ("varray-setitem-mask-" + ("elements" if form == "scalar" else "items-" + form), h.hkind(), h.vtype)
         n = len(h.idx)
         bits = (op["m"] * (n + 2))[:n + op["dlen"]]
-        if h.masked and len(bits) != n and len(bits) == getattr(h, "ulen", None):
+        while h.masked and len(bits) != n and len(bits) in self.maybe_legal_lengths(h):
             bits = bits + [1]        # the unmasked length is accepted (documented non-strict match): not exercised
         badlen = len(bits) != n
         sel = [k for k in range(min(n, len(bits))) if bits[k]]
